@@ -26,8 +26,9 @@ RULE = ("layer A (real generator): every multiset of n rows over 3 binary featur
 ASSUMPTIONS = ["layer B relies on the bootstrap calling pandas.DataFrame.sample once per resample; if it is not called exactly n_boot times "
                "layer B reports inapplicable and layer A alone decides",
                "the 'resamples differ' facts are deterministic facts about the fixed seed list 0..K on the fixed datasets"]
-CLASSES = ["layerA", "layerB_nboot1", "layerB_nboot2", "unsorted_quantiles", "randomstate_seed", "group_absent_from_resample",
-           "control_feature"]
+CLASSES = ["layerA", "layerB_nboot1", "layerB_nboot2", "unsorted_quantiles", "randomstate_seed", "control_feature"]
+# classes whose occurrence depends on implementation internals (reported, warned about when absent, never a hard vacuity error)
+SOFT_CLASSES = ["group_absent_from_resample"]
 
 QLISTS = [[0.1, 0.9], [0.5], [0.9, 0.1], [0.01, 0.5, 0.99], [0.001, 0.999]]
 LAYOUTS = ["s1", "s2", "s1c1"]
